@@ -343,11 +343,37 @@ func (x *tr) seq(stmts []ast.Stmt, k func() string) string {
 			}
 			return fmt.Sprintf("let %s := %s in\n  %s", nm, rhs, tail())
 		}
-		if len(z.Lhs) == 2 && len(z.Rhs) == 2 {
-			a, okA := x.lhsName(z.Lhs[0])
-			b, okB := x.lhsName(z.Lhs[1])
-			if okA && okB {
-				return fmt.Sprintf("let '(%s, %s) := (%s, %s) in\n  %s", a, b, x.expr(z.Rhs[0]), x.expr(z.Rhs[1]), tail())
+		if len(z.Lhs) == len(z.Rhs) && len(z.Lhs) >= 2 && (z.Tok == token.ASSIGN || z.Tok == token.DEFINE) {
+			// parallel assignment a, b, ... = x, y, ...: the right-hand sides are evaluated first;
+			// untracked fields on the left are dropped with their (pure) right-hand sides
+			var names, vals []string
+			okAll := true
+			for i := range z.Lhs {
+				if x.ignorable(z.Lhs[i]) {
+					continue
+				}
+				nm, ok := x.lhsName(z.Lhs[i])
+				if !ok {
+					okAll = false
+					break
+				}
+				names = append(names, nm)
+				vals = append(vals, x.expr(z.Rhs[i]))
+			}
+			if okAll {
+				switch len(names) {
+				case 0:
+					x.notes = append(x.notes, "ignored (untracked fields): "+clip(src(z)))
+					return tail()
+				case 1:
+					return fmt.Sprintf("let %s := %s in\n  %s", names[0], vals[0], tail())
+				default:
+					pat, tup := names[0], vals[0]
+					for i := 1; i < len(names); i++ {
+						pat, tup = "("+pat+", "+names[i]+")", "("+tup+", "+vals[i]+")"
+					}
+					return fmt.Sprintf("let '%s := %s in\n  %s", pat, tup, tail())
+				}
 			}
 		}
 		x.bad(z, "assignment form")
